@@ -1,14 +1,38 @@
 #!/bin/bash
 # Applies every stored seeded change to /repo in turn, runs the quick check(s) of its property
 # (plus extra checks named in meta.json "also_check"), restores /repo, and reports caught / MISSED.
+# Writes .work/seed_sweep.txt and refreshes "caught_by" in each meta.json.
+# usage: sweep_seeds.sh [seed-id ...]   (default: all)
 cd /verif
 out=/verif/.work/seed_sweep.txt; : > $out
-for d in seeded/C*/; do
-  id=$(basename $d); prop=${id%-*}
+ids="$@"; [ -z "$ids" ] && ids=$(ls seeded | grep '^C')
+for id in $ids; do
+  d=seeded/$id; prop=${id%-*}
   extra=$(python3 -c "import json;print(' '.join(json.load(open('$d/meta.json')).get('also_check',[])))")
   res=$(tools/try_seed.sh /verif/$d/patch.diff $prop $extra 2>&1)
   if echo "$res" | grep -q "patch does not apply"; then echo "$id NOAPPLY" | tee -a $out; continue; fi
-  if echo "$res" | grep -q "^VIOLATION"; then
-     echo "$id caught: $(echo "$res" | grep 'signature:' | head -3 | sed 's/ *signature: //' | tr '\n' ' ')" | tee -a $out
-  else echo "$id MISSED" | tee -a $out; fi
+  echo "$res" > .work/seed_last_$id.txt
+  python3 - "$id" "$d" <<'PY' | tee -a $out
+import sys,json,re
+sid,d=sys.argv[1:]
+txt=open('/verif/.work/seed_last_%s.txt'%sid).read()
+cur=None; caught={}
+for l in txt.split('\n'):
+    m=re.match(r'=== (C\d\d) with',l)
+    if m: cur=m.group(1); caught.setdefault(cur,[])
+    m=re.match(r'\s*signature: (\S+)',l)
+    if m and cur: caught[cur].append(m.group(1))
+own=sid.split('-')[0]
+flat=[s for p in caught for s in caught[p]]
+meta=json.load(open('/verif/%s/meta.json'%d))
+if flat:
+    meta['caught_by']=sorted(set(flat))[:6]
+    meta['caught_by_checks']=sorted(p for p in caught if caught[p])
+    json.dump(meta,open('/verif/%s/meta.json'%d,'w'),indent=1)
+    print("%s caught by %s: %s"%(sid, ",".join(meta['caught_by_checks']), " ".join(sorted(set(flat))[:3])))
+else:
+    print("%s MISSED"%sid)
+PY
+  rm -f .work/seed_last_$id.txt
 done
+echo DONE >> $out
